@@ -1,6 +1,6 @@
 (* Executable model of jumanji/environments/routing/mmst (env.py, utils.py, generator.py, reward.py).
    Impl layer: [step] (tie-break loop over an explicit permutation draw, already-traversed relabelling,
-   per-agent move, update_active_edges, make_action_mask with the OLD finished flags, DenseRewardFn,
+   per-agent move, update_active_edges, make_action_mask (with the updated finished flags), DenseRewardFn,
    get_finished_agents, termination), [init] (SplitRandomGenerator.__call__ after the graph is built),
    [obs_types] (_state_to_observation), generator [gen_graph] over explicit draws.
    Declarative layer: [legal_move], [blocked], [Excl], [conn_from], [view] with boolean twins.
@@ -51,10 +51,13 @@ Definition tb_step (nodes acts : list Z) (st : list Z * list Z) (i : Z) : list Z
 Definition tie_break (A : Z) (nodes acts perm : list Z) : list Z * list Z :=
   fold_left (tb_step nodes acts) perm (repeat DUMMY_NODE (Z.to_nat A), repeat INVALID_CHOICE (Z.to_nat A)).
 
-(* mask_visited_nodes + finished masking:  final * ~finished - finished *)
+(* mask_visited_nodes + finished masking:  final * ~finished - finished.
+   node_visited = where(nodes[agent] == EMPTY_NODE, EMPTY_NODE, connected_nodes_index[agent, nodes[agent]])
+   (fix 49322d14: an invalid choice no longer wraps to node N-1) *)
 Definition final_act (s : state) (nodes newa : list Z) (a : Z) : Z :=
   if znth false (fin s) a then -1
-  else if negb (jget (-1) (znth [] (cidx s) a) (znth (-1) nodes a) =? -1) then INVALID_ALREADY_TRAVERSED
+  else if negb (znth (-1) nodes a =? -1) && negb (jget (-1) (znth [] (cidx s) a) (znth (-1) nodes a) =? -1)
+       then INVALID_ALREADY_TRAVERSED
   else znth (-1) newa a.
 
 (* step_agent_fn's is_valid *)
@@ -104,9 +107,10 @@ Definition step (c : cfg) (s : state) (acts perm : list Z) : state * tstep :=
   let pos' := tab A (fun a => if mv a then znth (-1) nodes a else znth 0 (pos s) a) in
   let pidx' := tab A (fun a => if mv a then znth 0 (pidx s) a + 1 else znth 0 (pidx s) a) in
   let edges' := update_active A (ntypes s) pos' (edges s) in
-  let amask' := make_mask A edges' pos' (fin s) in     (* OLD finished flags *)
   let rew := zsum (tab A (fun a => agent_reward c (znth [] (ntc s) a) (znth (-1) fas a) (znth 0 pos' a) (znth false (fin s) a))) in
   let fin' := tab A (fun a => finished_agent (cK c) (znth [] (ntc s) a) (znth [] conn' a)) in
+  (* fix aa74bf17: _state_to_timestep rebuilds the mask with the UPDATED finished flags *)
+  let amask' := make_mask A edges' pos' fin' in
   let sc' := sc s + 1 in
   let done := all_true fin' || (cT c <=? sc') in
   (mkS (ntypes s) (adjm s) conn' cidx' (ntc s) edges' pos' pidx' amask' fin' sc', cond_done 1 done [rew]).
